@@ -137,11 +137,12 @@ def render(ir, n):
         e("    " + GARBAGE[g].replace("{site}", site or ""))
     e("    i = i + 1;")
     e("  }")
+    # quiescence: the bounded live set (ring, headf, prevf) is still referenced; everything else must be reclaimable
+    e('  print(("gc",));')
+    e('  print(("stats", "end"));')
     e("  return acc + ring.len();")
     e("}")
     e('print(("ev", "sum", run(%d)));' % n)
-    e('print(("gc",));')
-    e('print(("stats", "end"));')
     return "\n".join(out) + "\n"
 
 
